@@ -1968,4 +1968,4 @@ mod tests {
 // Verification hook: compiled only by `cargo kani` (cfg(kani)); see /verif/MANIFEST.json.
 #[cfg(kani)]
 #[path = "/verif/units/kx/compiler/table.rs"]
-mod verif_kani_table;
+pub(crate) mod verif_kani_table;
